@@ -2305,3 +2305,63 @@ func ruleFlushResetsCompletionFlags(r *Run, rule string) {
 		}
 	}
 }
+
+// ruleDispatchDecision (R04.18 / R03.28 / R09.9): the control unit's dispatch decision — the
+// function that consults the scoreboard classifier and puts an instruction on the execute bus
+// — equals its reference model as a decision procedure: with the predicates it consults and
+// the dispatch itself uninterpreted, the outcome (dispatched? stop looking at younger
+// instructions?), the wiring of the forwarding channel and the order of the consultations are
+// the reference's on EVERY combination of the answers. This fixes the polarity of every
+// guard: the branch-per-cycle hold, the hold of ret behind the bus and behind an unresolved
+// conditional branch, held-back dependences, no-hazard / forwarding / renaming.
+func ruleDispatchDecision(r *Run, rule string) {
+	w := r.W
+	for _, v := range variants(w) {
+		if v.pkg == nil || !multiExec(v) {
+			continue
+		}
+		info := v.info
+		for _, f := range v.fields {
+			if !f.isUnit || f.unitT == nil {
+				continue
+			}
+			var decide *ast.FuncDecl
+			for i := 0; i < f.unitT.NumMethods(); i++ {
+				fd, _ := w.FuncDecl(f.unitT.Method(i))
+				if fd == nil || fd.Body == nil {
+					continue
+				}
+				ast.Inspect(fd.Body, func(n ast.Node) bool {
+					if c, ok := n.(*ast.CallExpr); ok {
+						if fn, ok := typeutil.Callee(info, c).(*types.Func); ok && fn.Name() == "IsDataHazard3" {
+							decide = fd
+						}
+					}
+					return true
+				})
+			}
+			if decide == nil {
+				continue
+			}
+			tn := f.unitT.Obj().Name()
+			opaque := map[string]bool{"(*Context).IsDataHazard3": true, "(InstructionType).IsBranch": true}
+			for i := 0; i < f.unitT.NumMethods(); i++ {
+				m := f.unitT.Method(i)
+				if m.Name() != decide.Name.Name {
+					opaque["(*"+tn+")."+m.Name()] = true
+				}
+			}
+			setup := func(in *Interp) { in.opaqueMethods = opaque }
+			var refs []string
+			switch {
+			case hasDeclMethod(f.unitT, "shouldUseRenaming") != nil:
+				refs = []string{"cu_dispatch63"}
+			case hasDeclMethod(f.unitT, "shouldUseForwarding") != nil:
+				refs = []string{"cu_dispatch61", "cu_dispatch62"}
+			default:
+				refs = []string{"cu_dispatch60"}
+			}
+			conformAny(r, rule, v.rel, tn, decide.Name.Name, refs, setup)
+		}
+	}
+}
